@@ -2,6 +2,7 @@ package main
 
 import (
 	"golang.org/x/tools/go/ssa"
+	"strings"
 )
 
 func init() {
@@ -20,27 +21,35 @@ func tokenizerFns(e *Engine, names ...string) []*ssa.Function {
 }
 
 func runC04(e *Engine, tier Tier) *PropRun {
-	rs := e.verifyAll(tokenizerFns(e, "Tokenize", "TokenizeContext", "readPunctuation"), &VCOpts{InlineDepth: 1, CheckTags: map[string]bool{"C04": true}}, nil)
+	o4 := &VCOpts{InlineDepth: 1, CheckTags: map[string]bool{"C04": true}}
+	e.prepareExempt("C04", e.sourceFns(func(fn *ssa.Function, file string) bool {
+		return fn.Parent() == nil && strings.HasPrefix(file, "pkg/sql/tokenizer/")
+	}), o4)
+	rs := e.verifyAll(tokenizerFns(e, "Tokenize", "TokenizeContext", "readPunctuation"), o4, nil)
 	return &PropRun{
 		Results: rs, FUC: fucList(rs),
 		Claim: func(o *Obligation) bool {
 			return o.Kind == "post" || o.Kind == "inv-init" || o.Kind == "inv-pres"
 		},
-		Level: "other",
+		Level:       "other",
 		Explanation: "Two clauses of the property, proved for every input. (1) Faithful reading of operators and punctuation: every token readPunctuation builds itself (no word, not a string literal, no comment skipped on the way, not the content of a dollar-quoted string, not a named placeholder) has as its value exactly the bytes the cursor moved over - one obligation per return site (about 175), so a branch that consumes more or fewer bytes than the text it reports fails its obligation. (2) A successful Tokenize / TokenizeContext returns a non-empty stream whose last token is the end-of-input marker and none of whose earlier tokens is (quantified postcondition; quantified invariant of the main loop over the token slice, with the append semantics of the slice model).",
-		NotCovered: []string{"verbatim reading of identifiers, numbers, string literals and named placeholders (their values are decoded or assembled by other readers)", "kind and decoded value of each lexical element (maximal munch, number grammar, escape decoding): functional reader contracts against a lexical spec are not built", "comments captured with their exact text", "layout independence (separators, keyword case)", "compound-keyword look-ahead across whitespace vs comments"},
+		NotCovered:  []string{"verbatim reading of identifiers, numbers, string literals and named placeholders (their values are decoded or assembled by other readers)", "kind and decoded value of each lexical element (maximal munch, number grammar, escape decoding): functional reader contracts against a lexical spec are not built", "comments captured with their exact text", "layout independence (separators, keyword case)", "compound-keyword look-ahead across whitespace vs comments"},
 	}
 }
 
 func runC05(e *Engine, tier Tier) *PropRun {
-	rs := e.verifyAll(tokenizerFns(e, "toSQLPosition", "getCurrentPosition"), &VCOpts{InlineDepth: 1, CheckTags: map[string]bool{"C05": true}}, nil)
+	o5 := &VCOpts{InlineDepth: 1, CheckTags: map[string]bool{"C05": true}}
+	e.prepareExempt("C05", e.sourceFns(func(fn *ssa.Function, file string) bool {
+		return fn.Parent() == nil && strings.HasPrefix(file, "pkg/sql/tokenizer/")
+	}), o5)
+	rs := e.verifyAll(tokenizerFns(e, "toSQLPosition", "getCurrentPosition"), o5, nil)
 	return &PropRun{
 		Results: rs, FUC: fucList(rs),
 		Claim: func(o *Obligation) bool {
 			return o.Kind == "post" || o.Kind == "inv-init" || o.Kind == "inv-pres"
 		},
-		Level: "other",
+		Level:       "other",
 		Explanation: "Two clauses of the property, proved for every input and cursor: the locations computed by toSQLPosition / getCurrentPosition (every token start and end, every comment span and every tokenizer error location built from them) are 1-based (Line >= 1, Column >= 1) and their line is one of the input's lines (Line <= number of line starts); loop invariants on both scanning loops.",
-		NotCovered: []string{"that line and column are the right ones (functional spec lineOf/colOf needs the line-table invariant established by Tokenize's pre-scan: not built)", "monotonicity along the stream and end <= next start", "a token after a comment is located at its own first character", "error locations built from raw cursor fields (3 sites) and parser error locations"},
+		NotCovered:  []string{"that line and column are the right ones (functional spec lineOf/colOf needs the line-table invariant established by Tokenize's pre-scan: not built)", "monotonicity along the stream and end <= next start", "a token after a comment is located at its own first character", "error locations built from raw cursor fields (3 sites) and parser error locations"},
 	}
 }
